@@ -478,7 +478,10 @@ pub fn names(tr: &mut Tr, rng: &mut SmallRng) -> u64 {
                 if paren && pk == "none" {
                     continue;
                 }
-                for trailing in [false, true] {
+                for (trailing, close) in [(false, true), (true, true), (false, false), (true, false)] {
+                    if !paren && !close {
+                        continue;
+                    }
                     let pv: u64 = rng.random_range(0..70);
                     let ptext = match pk {
                         "empty" => String::new(),
@@ -492,13 +495,15 @@ pub fn names(tr: &mut Tr, rng: &mut SmallRng) -> u64 {
                     if paren {
                         text.push('(');
                         text.push_str(&ptext);
-                        text.push(')');
+                        if close {
+                            text.push(')');
+                        }
                     }
                     if trailing {
                         text.push_str(["junk", ")", " "][rng.random_range(0..3)]);
                     }
                     let r: Result<Codes, _> = text.parse();
-                    let mut e = Ev::new("parse").s("name", name).b("paren", paren).s("pkind", pk).u64("pval", pv).b("trailing", trailing).s("res", res_of(&r));
+                    let mut e = Ev::new("parse").s("name", name).b("paren", paren).s("pkind", pk).u64("pval", pv).b("trailing", trailing).b("close", close).s("res", res_of(&r));
                     if let Ok(c2) = &r {
                         e = code_ev(e, "b", c2);
                     }
